@@ -402,23 +402,9 @@ pub fn close_position_reply(
         return Err(StdError::generic_err("Cannot close position - bad debt"));
     }
 
-    if !withdraw_amount.is_zero() {
-        msgs.append(
-            &mut withdraw(
-                deps.as_ref(),
-                env,
-                &mut state,
-                &swap.trader,
-                config.eligible_collateral,
-                withdraw_amount.value,
-                Uint128::zero(),
-            )
-            .unwrap(),
-        );
-    }
-
     // create array for fee amounts
     let mut fees_amount: [Uint128; 2] = [Uint128::zero(), Uint128::zero()];
+    let mut fee_msgs: Vec<SubMsg> = vec![];
 
     if !position.notional.is_zero() {
         let mut fees = transfer_fees(
@@ -432,8 +418,39 @@ pub fn close_position_reply(
         fees_amount[0] = fees.spread_fee;
         fees_amount[1] = fees.toll_fee;
 
-        msgs.append(&mut fees.messages);
+        fee_msgs.append(&mut fees.messages);
     }
+
+    // with native collateral the trader pays the closing fees with the coins attached to the
+    // message (exactly the fees due); they are forwarded below and are not vault money the payout
+    // could be made from
+    let mut funds = read_sent_funds(deps.storage)?;
+    remove_sent_funds(deps.storage);
+    let reserved_fees = if let AssetInfo::NativeToken { .. } = config.eligible_collateral {
+        funds.required = fees_amount[0].checked_add(fees_amount[1])?;
+        funds.are_sufficient()?;
+        funds.required
+    } else {
+        Uint128::zero()
+    };
+
+    if !withdraw_amount.is_zero() {
+        msgs.append(
+            &mut withdraw_with_reserve(
+                deps.as_ref(),
+                env,
+                &mut state,
+                &swap.trader,
+                config.eligible_collateral,
+                withdraw_amount.value,
+                Uint128::zero(),
+                reserved_fees,
+            )
+            .unwrap(),
+        );
+    }
+
+    msgs.append(&mut fee_msgs);
 
     let value =
         margin_delta + Integer::new_positive(bad_debt) + Integer::new_positive(position.notional);
@@ -539,6 +556,14 @@ pub fn partial_close_position_reply(
     // to prevent attacker to leverage the bad debt to withdraw extra token from insurance fund
     if !bad_debt.is_zero() {
         return Err(StdError::generic_err("Cannot close position - bad debt"));
+    }
+
+    // with native collateral the fees of the closed part come attached to the message
+    let mut funds = read_sent_funds(deps.storage)?;
+    remove_sent_funds(deps.storage);
+    if let AssetInfo::NativeToken { .. } = read_config(deps.storage)?.eligible_collateral {
+        funds.required = fees.spread_fee.checked_add(fees.toll_fee)?;
+        funds.are_sufficient()?;
     }
 
     // remove the tmp position
